@@ -376,6 +376,10 @@ func (x *session) packet(atom string) ([]byte, error) {
 			return B(S(sauth.U32([]byte{7}, 1), "no-flow-control"), []byte("p")), nil
 		}
 		return B(S(B(S(sauth.U32([]byte{7}, 2), "server-sig-algs"), []byte(arg)), "no-flow-control"), []byte("p")), nil
+	case "x8": // server-sig-algs last
+		return B(S(B(S(sauth.U32([]byte{7}, 2), "no-flow-control"), []byte("p")), "server-sig-algs"), []byte(arg)), nil
+	case "x9": // server-sig-algs alone
+		return B(S(sauth.U32([]byte{7}, 1), "server-sig-algs"), []byte(arg)), nil
 	case "f":
 		ms, part, _ := strings.Cut(arg, ":")
 		if ms == "-" {
